@@ -443,3 +443,21 @@ hash buckes bitmap:
 +--------+-------+-------------+-----------------------------------+
 ```
 */
+
+// verification probe: the constants of this file.
+#[cfg(abyssiniandb_verif)]
+pub(crate) mod verif {
+    use super::*;
+    pub fn consts() -> String {
+        format!(
+            "htx_header_size {}\nhtx_signature {:?}\nhtx_chunk_size {}\nhtx_default_buckets {}\nhtx_size_offset {}\nhtx_count_offset {}\nhtx_bitmap {}\n",
+            HTX_HEADER_SZ,
+            HTX_HEADER_SIGNATURE,
+            CHUNK_SIZE,
+            DEFAULT_HT_SIZE,
+            HTX_HT_SIZE_OFFSET,
+            HTX_ITEM_COUNT_OFFSET,
+            cfg!(feature = "htx_bitmap")
+        )
+    }
+}
